@@ -133,12 +133,13 @@ class TestDataGenerator():
         dt_local = dt.astimezone(tz)
 
         # Check every 'sampling_interval' hours for a transition
+        # Examine every sampling interval up to the end of the range, clamping
+        # the last one, so that a transition just before until_year is found.
+        dt_until = datetime(self.until_year, 1, 1, 0, 0, 0, tzinfo=pytz.utc)
         transitions: List[TransitionTimes] = []
-        while True:
-            next_dt = dt + self.sampling_interval
+        while dt < dt_until:
+            next_dt = min(dt + self.sampling_interval, dt_until)
             next_dt_local = next_dt.astimezone(tz)
-            if next_dt.year >= self.until_year:
-                break
 
             # Look for a UTC or DST transition.
             if self.is_transition(dt_local, next_dt_local):
